@@ -48,7 +48,10 @@ CLAIMS = {
         'events) against capacity, one-order-per-target, exact duration, cost-only-at-start and no-startable-order-left-when-time-advances; '
         'the behaviours TLC generates (under several tie-break seeds) and longer random streams are executed on the real Maintainer bound '
         'to a real System, and TLC validates every recorded request and dispatched event against the relations of MaintTrace.tla '
-        '(return value, greedy in-order scan, hooks once, records, cost, exact duration) on the logged pre-state.',
+        '(return value, greedy in-order scan, hooks once, records, cost, exact duration) on the logged pre-state; the C12.Floor* clauses '
+        '(capacity, one order per target, no identical order twice, nothing startable left when time advances) are checked on the closed '
+        'floor specification and on every recorded step of the factory-floor traces, where orders come from scripts and from the '
+        'monitoring system.',
    technique='TLA+ closed spec model-checked with TLC + TLC trace validation of real Maintainer runs'),
  'C18': dict(engine='sched', ref='DESIGN.md 6 (C18), 3.3',
    text='TLC model-checks the closed scheduler specification SchedMC (every timetable of a bounded family with repeated states and '
@@ -57,20 +60,24 @@ CLAIMS = {
         'advances, k-th record at the k-th prefix-sum time, actions once per registered object in registration order; the behaviours '
         'and longer random scripts are executed on the real ActionScheduler + System and TLC validates every recorded call and '
         'dispatched event against SchedTrace.tla, whose expectations come from the timetable alone and from the registry as the '
-        'public calls define it.',
+        'public calls define it; the C18.Floor* clauses (state = timetable state and targets blocked accordingly whenever time '
+        'advances) are checked on the floor traces with operating schedules attached to devices.',
    technique='TLA+ closed spec model-checked with TLC + TLC trace validation of real ActionScheduler runs'),
  'C19': dict(engine='sensors', ref='DESIGN.md 6 (C19), 3.3',
    text='TLC model-checks the closed sensor specification SensorsMC (intervals, data capacities, sensing intervals, a probed object '
         'changing in place, callbacks and the monitoring system added before / between runs and twice) against bounded aligned series, '
         'k-th periodic measurement at k intervals, first-then-every-(n+1)-th part, stored values never changing afterwards; the '
         'behaviours and random scripts (failures of the observed processor, non-grid intervals) run on the real PeriodicSensor / '
-        'OutputPartSensor / Cms with a real line, and TLC validates every recorded step against SensorsTrace.tla.',
+        'OutputPartSensor / Cms with a real line (also sense() called by hand, and lists kept by callbacks), and TLC validates every '
+        'recorded step against SensorsTrace.tla; the C19.Floor* clauses of FloorObs.tla are checked on the closed floor specification '
+        '(FloorMC) and on every recorded step of the factory-floor traces (machines with output-part and periodic sensors and a '
+        'monitoring system requesting work orders, with failures and blocked inputs).',
    technique='TLA+ closed spec model-checked with TLC + TLC trace validation of real sensor runs'),
  'C20': dict(engine='lifecycle', ref='DESIGN.md 6 (C20), 3.3',
    text='TLC model-checks the closed lifecycle specification LifecycleMC (system creations, asset creations before the first run, '
         'between runs and from inside events, simulate calls on current and superseded systems, look-ups with all filter combinations) '
         'against initialised-at-most-once, initialised-once-simulated, registration-is-forever and only-the-latest-runs; the behaviours '
-        'over all twelve asset kinds and random scripts run on the real System and asset classes (Asset.initialize wrapped to count '
+        'over all asset kinds (also user-defined assets that create assets while being initialised) and random scripts run on the real System and asset classes (Asset.initialize wrapped to count '
         'calls) and TLC validates every recorded line against LifecycleTrace.tla; for every kind a late-created asset is compared with '
         'its twin created before the start (recorded data, counters, callback logs).',
    technique='TLA+ closed spec model-checked with TLC + TLC trace validation of real System/asset lifecycle scripts + late-vs-twin scenario pairs'),
